@@ -159,6 +159,21 @@ def run(tier):
                     v.violation("c11:generated-link-wrong-target", "emitted link target differs from the source", {"scope": scope, "link": l})
     except (tzpipe.CompilerDied, vlib.BuildError) as e:
         v.violation("c11:fresh-compilation-failed", "fresh compilation of tzdata 2025b failed", {"error": str(e)[-600:]})
+    # --- link targets on the hand-written sources as well (a link listed twice: if it is emitted it must denote zic's
+    #     choice, the LAST line; links to zones that are removed; names that fold to the same C++ symbol)
+    for pid, prog in (("features", c03worker.features()), ("unsupported", c03worker.unsupported())):
+        ldir = tzpipe.write_input_dir(tzsrc.render_long(prog), out / ("in-links-" + pid))
+        for scope in ("extended", "basic"):
+            try:
+                lc = tzpipe.compile_source(ldir, scope, 2000, 2050)
+            except tzpipe.CompilerDied as e:
+                v.inconclusive_because("source %s could not be compiled (C03 judges that): %s" % (pid, repr(e.exc)[:200]))
+                continue
+            for l, t in lc.tzdb["links_map"].items():
+                c["handwritten_links_checked"] = c.get("handwritten_links_checked", 0) + 1
+                if prog["links"].get(l) != t or t not in lc.tzdb["zones_map"]:
+                    v.violation("c11:generated-link-wrong-target", "an emitted link does not denote the zone the source (as read by zic: last Link line wins) gives it",
+                                {"program": pid, "scope": scope, "link": l, "emitted_target": t, "source_target": prog["links"].get(l)})
     # --- uniqueness is a promise about every database the compiler emits: a source with names whose djb2 hashes collide
     #     ('Test/Ab' / 'Test/BA': 33*'A'+'b' == 33*'B'+'A') must be refused or come out with distinct ids
     coll = ("Zone Test/Ab 1:00 - AAA\nZone Test/BA 2:00 - BBB\nZone Test/Plain 3:00 - CCC\n"
